@@ -50,12 +50,15 @@ def compare_frame(ctx, res, ref, r, compare, relaxed, nb, K, key, info):
     return allok
 
 
-def one_case(ctx, rng, wd, K=None, force=None):
+def one_case(ctx, rng, wd, K=None, force=None, force_N=None):
     from PyMatterSim.static.gr import gr
     K = K or int(rng.choice([1, 2, 2, 3, 3, 4, 4, 5, 5, 6]))
     frames = int(rng.choice([1, 1, 2, 4]))
     retype = bool(frames > 1 and rng.random() < 0.35)
-    snaps, inf, cell = gc.static_system(rng, K=K, frames=frames, nmin=max(2, K), nmax=70 if not ctx.thorough else 110, retype=retype, vary_tilt=True, big="xl" if ctx.thorough else True)
+    if force_N:
+        frames, retype = 1, False
+    snaps, inf, cell = gc.static_system(rng, K=K, N=force_N, frames=frames, nmin=max(2, K), nmax=70 if not ctx.thorough else 110, retype=retype, vary_tilt=True,
+                                        big="xl" if ctx.thorough else True, poskind="gas" if force_N else None)
     d = inf["d"]
     ppp = gc.random_mask(rng, d)
     Lmin = float(np.min(np.diag(cell["H"])))
@@ -195,6 +198,11 @@ def run(ctx):
     wd = fresh_dir("c03")
     if ctx.shard == 0:
         routing_probe(ctx)
+    if ctx.shard == 0 or ctx.thorough:
+        # two systems far beyond the usual size (block-wise / cell-list evaluation boundaries)
+        for K_ in ((2, 5) if ctx.thorough else (5,)):
+            one_case(ctx, ctx.rng(), wd, K=K_, force_N=int(ctx.rng().choice([1100, 1500])))
+            ctx.count("systems_over_1000_particles")
     n = ctx.n(150, 400)
     for i in range(n):
         rng = ctx.rng()
